@@ -288,6 +288,48 @@ struct CompressedPGMIndex<K, Epsilon, EpsilonRecursive, Floating>::CompressedLev
     sdsl::sd_vector<> compressed_intercepts;   ///< The compressed bitvector storing the intercepts.
     sdsl::sd_vector<>::select_1_type sel1;     ///< The select1 succinct data structure on compressed_intercepts.
 
+    CompressedLevel(const CompressedLevel &other)
+        : keys(other.keys),
+          slopes_map(other.slopes_map),
+          intercept_offset(other.intercept_offset),
+          compressed_intercepts(other.compressed_intercepts),
+          sel1(other.sel1) {
+        sel1.set_vector(&compressed_intercepts);
+    }
+
+    CompressedLevel(CompressedLevel &&other)
+        : keys(std::move(other.keys)),
+          slopes_map(std::move(other.slopes_map)),
+          intercept_offset(other.intercept_offset),
+          compressed_intercepts(std::move(other.compressed_intercepts)),
+          sel1(std::move(other.sel1)) {
+        sel1.set_vector(&compressed_intercepts);
+    }
+
+    CompressedLevel &operator=(const CompressedLevel &other) {
+        if (this != &other) {
+            keys = other.keys;
+            slopes_map = other.slopes_map;
+            intercept_offset = other.intercept_offset;
+            compressed_intercepts = other.compressed_intercepts;
+            sel1 = other.sel1;
+            sel1.set_vector(&compressed_intercepts);
+        }
+        return *this;
+    }
+
+    CompressedLevel &operator=(CompressedLevel &&other) {
+        if (this != &other) {
+            keys = std::move(other.keys);
+            slopes_map = std::move(other.slopes_map);
+            intercept_offset = other.intercept_offset;
+            compressed_intercepts = std::move(other.compressed_intercepts);
+            sel1 = std::move(other.sel1);
+            sel1.set_vector(&compressed_intercepts);
+        }
+        return *this;
+    }
+
     template<typename IterK, typename IterI, typename IterM>
     CompressedLevel(IterK first_segment, IterK last_segment,
                     IterI first_intercept, IterI last_intercept,
